@@ -991,6 +991,7 @@ type RunResult struct {
 	Replays     []string       `json:"replays,omitempty"`
 	MultiTx     []int          `json:"multi_tx,omitempty"`
 	OpKinds     []string       `json:"op_kinds,omitempty"`
+	FileSteps   []int          `json:"file_steps,omitempty"`
 }
 
 func tmpRoot() string {
